@@ -200,8 +200,13 @@ func checkC07() fw.Check {
 					r := c.Rng
 					first := 1 + r.Intn(3)
 					last := first + r.Intn(40)
-					if r.Intn(6) == 0 {
+					switch r.Intn(8) {
+					case 0:
 						last = first + r.Intn(256-first)
+					case 1:
+						last = 255 // the largest legal TTL
+					case 2:
+						first, last = 250+r.Intn(6), 255
 					}
 					p := engParams{first: uint8(first), last: uint8(last), timeout: 200 * time.Millisecond, poll: 40 * time.Millisecond, delay: 10 * time.Millisecond}
 					script := c07RandomScript(r, p)
